@@ -110,11 +110,7 @@ Section Translate.
         match assoc v vars with
         | None => RReject
         | Some c =>
-            match field_kind sc c attr_name, field_kind sc c attr_id_ with
-            | None, None => RReject                      (* DomainExtractionError: the sample cannot be resolved to a row *)
-            | Some _, None => RReject                    (* resolved by name to a DAO instance; column <op> instance: ArgumentError -> UnsupportedOperatorError *)
-            | _, _ => RUnmod                             (* looked up in the database by id_ *)
-            end
+            RReject                                      (* DomainExtractionError: a variable over mapped entities is no operand *)
         end
     end.
 
@@ -192,16 +188,6 @@ Section Translate.
     | Some res => res
     | None =>
         if negb (rel_check (eqne op) l r) then RReject else
-        if named_var l then
-          (* the variable is resolved by name to a DAO instance; instance == column is Python's False: WHERE false (C07-n) *)
-          match op with
-          | OEq => match toperand st r with
-                   | ROk _ st2 => ROk (Some SFalse) st2
-                   | RReject => RReject | RCrash => RCrash | RUnmod => RUnmod
-                   end
-          | _ => RUnmod
-          end
-        else
         match toperand st l with
         | ROk a st1 =>
             match toperand st1 r with
@@ -274,14 +260,7 @@ Section Translate.
         | RReject => RReject | RCrash => RCrash | RUnmod => RUnmod
         end
     | CTruth _ => RReject
-    | CInSet cs (OAttr v chain) =>
-        (* _handle_contains_operator unwraps list / tuple containers only: the set itself is bound as one parameter (C07-m) *)
-        if is_rel (OAttr v chain) then RReject else
-        match tattr st v chain with
-        | ROk a st1 => ROk (Some (SIn a [VObjLit])) st1
-        | RReject => RReject | RCrash => RCrash | RUnmod => RUnmod
-        end
-    | CInSet _ _ => RUnmod
+    | CInSet cs it => tcontains st (OList cs) it         (* set / frozenset containers are unwrapped like lists *)
     end.
 End Translate.
 
@@ -368,7 +347,7 @@ Fixpoint cond_ok (sc : schema) (w : world) (sel root : Z) (o : obj) (c : cond) :
       | Some a, Some b => cmp_data (eqne op) a b
       | _, _ => false
       end
-  | CContains (OList cs) (OAttr v ch) =>
+  | CContains (OList cs) (OAttr v ch) | CInSet cs (OAttr v ch) =>
       match operand_data sc w sel root o (OAttr v ch) with
       | Some a => forallb (compat a) cs
       | None => false
@@ -392,7 +371,7 @@ Fixpoint cond_shape (sc : schema) (sel root : Z) (c : cond) : bool :=
   match c with
   | CCmp op (OAttr v ch) r =>
       operand_shape sc sel root (OAttr v ch) && operand_shape sc sel root r && (eqne op || negb (none_lit r))
-  | CContains (OList cs) (OAttr v ch) => operand_shape sc sel root (OAttr v ch) && forallb scalar_val cs
+  | CContains (OList cs) (OAttr v ch) | CInSet cs (OAttr v ch) => operand_shape sc sel root (OAttr v ch) && forallb scalar_val cs
   | CTruth (OAttr v ch) => operand_shape sc sel root (OAttr v ch)
   | CAnd p q | COr p q => cond_shape sc sel root p && cond_shape sc sel root q
   | _ => false
